@@ -554,12 +554,15 @@ B_SUBSCRIBED = [b'n']
 class SchedSock(FakeSock):
     """scripted socket whose recv and every partial write of sendall are yield points of the scheduler"""
 
-    def __init__(self, sched, name, chunks, piece):
+    def __init__(self, sched, name, chunks, piece, gone=None):
         super().__init__(chunks)
         self.sched = sched
         self.name = name
         self.piece = piece
         self.calls = []          # the byte strings handed to sendall
+        # {'after': n, 'pieces': j, 'exc': kind, 'back': bool}: call n of sendall raises after j of its pieces went out
+        # (never all of them); later calls raise at once, or (`back`) succeed
+        self.fails = gone
 
     def recv(self, n):
         self.sched.yield_(('recv', self.name))
@@ -572,10 +575,19 @@ class SchedSock(FakeSock):
 
     def sendall(self, b):
         b = bytes(b)
+        n = len(self.calls)
         self.calls.append(b)
-        for i in range(0, len(b), self.piece):    # sendall hands the frame to the socket in pieces
+        pieces = [b[i:i + self.piece] for i in range(0, len(b), self.piece)]    # sendall hands the frame to the socket in pieces
+        g = self.fails
+        if g is not None and n >= g['after'] and (n == g['after'] or not g.get('back')):
+            for p in (pieces[:min(g['pieces'], len(pieces) - 1)] if n == g['after'] else []):
+                self.sched.yield_(('write', self.name))
+                self.out.append(p)
+            self.sched.yield_(('write-fails', self.name))
+            raise GONE[g['exc']]('send failed')
+        for p in pieces:
             self.sched.yield_(('write', self.name))
-            self.out.append(b[i:i + self.piece])
+            self.out.append(p)
 
 
 def run_concurrent(case):
@@ -603,7 +615,7 @@ def run_concurrent(case):
         for name, chunks in (('A', [bytes.fromhex(c) for c in case['chunks']]),
                              ('B', [b''.join(ln + b'\n' for ln in B_SCRIPT)][:1] if case.get('b_one_chunk', True)
                               else [ln + b'\n' for ln in B_SCRIPT])):
-            sock = SchedSock(s, name, chunks, case.get('piece', 5))
+            sock = SchedSock(s, name, chunks, case.get('piece', 5), case.get('a_gone') if name == 'A' else None)
             d = RecordingDispatcher(node.dispatcher)
             d.sock = sock
             d.concurrent = True
@@ -651,6 +663,12 @@ def evaluate_concurrent_many(ctx, cases):
         streams = {'A': b''.join(bytes.fromhex(c) for c in case['chunks']), 'B': stream_b}
         for name in 'AB':
             outs = res[name]['lines']
+            if name == 'A' and case.get('a_gone'):
+                # a send on A fails in the middle of a frame: what A has received by then -- from all threads -- is judged
+                got = res['A']['received']
+                reqs.append({'p': 'C07', 'k': 'judge_received', 'stream': hx(streams['A']), 'received': hx(got),
+                             'flags': [line_flags(ln + b'\n', True) for ln in got.split(b'\n')[:-1]]})
+                continue
             reqs.append({'p': 'C07', 'k': 'judge', 'stream': hx(streams[name]), 'outs': [hx(o) for o in outs],
                          'flags': [line_flags(o, True) for o in outs]})
         reqs.append({'p': 'C07', 'k': 'judge_events', 'outs': [hx(o) for o in res['B']['lines']],
@@ -710,7 +728,9 @@ def gen_concurrent(rng):
     stream = b''.join(ln + b'\n' for ln in lines)
     return {'kind': 'concurrent', 'chunks': [hx(c) for c in segment(rng, stream) if c], 'sched_seed': rng.randrange(1 << 30),
             'preempt': rng.choice([0.2, 0.5, 0.8]), 'piece': rng.choice([1, 3, 5, 16, 4096]), 'updates': rng.choice([2, 6]),
-            'b_one_chunk': rng.random() < 0.5}
+            'b_one_chunk': rng.random() < 0.5,
+            **({'a_gone': {'after': rng.choice([0, 1, 2, 3, 5, 8]), 'pieces': rng.choice([0, 1, 1, 2, 3, 100]),
+                           'exc': rng.choice(sorted(GONE)), 'back': rng.random() < 0.7}} if rng.random() < 0.3 else {})}
 
 
 # ----------------------------------------------------------------------------------------
@@ -1634,6 +1654,10 @@ def run(ctx):
         res.traces += 2
         res.count('concurrent.cases')
         res.count('concurrent.piece=%s' % case.get('piece'))
+        if case.get('a_gone'):
+            res.count('concurrent.a-send-on-A-fails')
+            if len(ev['res']['A']['frames_sent']) > case['a_gone']['after']:
+                res.count('concurrent.a-send-on-A-fails.reached')
         r = ev['res']
         nupd_a = sum(1 for ln in r['A']['lines'] if ln.startswith(b'update '))
         res.count('concurrent.A-got-events' if nupd_a else 'concurrent.A-no-events')
